@@ -1,6 +1,6 @@
 """C08 — no undefined behaviour or memory error on any generation path (DESIGN §2 C08):
 the drivers of the other properties re-run against the ASan+UBSan build of /repo."""
-import glob, os, re, subprocess
+import glob, json, os, re, subprocess
 import dxlib, vlib, c01, c02
 
 
@@ -49,6 +49,53 @@ def run(tier, rep):
         total += acc + [r for r in res2 if 'crashed' in r or r['port_err'] == 0]
         if tier == 'quick':
             break
+    # ---- the drivers of the other properties on the sanitizer build (event reuse, API histories, MDL, reader, gA)
+    import shutil, tempfile, concurrent.futures as cf, gadata
+    dd = vlib.scratch('c08x')
+    extra_runs = {}
+
+    def side(name, src, args, tmo=3000, needs_dir=False):
+        exe = vlib.build_harness(src, 'asan')
+        logd = os.path.join(dd, name)
+        os.makedirs(logd, exist_ok=True)
+        env = dict(os.environ)
+        env['ASAN_OPTIONS'] = 'halt_on_error=0:detect_leaks=0:log_path=%s/asan' % logd
+        env['UBSAN_OPTIONS'] = 'halt_on_error=0:print_stacktrace=1:log_path=%s/ubsan' % logd
+        gad = os.path.join(logd, 'ga')
+        gadata.install_tree(gad)
+        env['BXDECAY0_DBD_GA_DATA_DIR'] = gad
+        work = None
+        a = list(args)
+        if needs_dir:
+            base_tmp = '/dev/shm' if os.path.isdir('/dev/shm') and os.access('/dev/shm', os.W_OK) else logd
+            work = tempfile.mkdtemp(prefix='bxd0-c08-', dir=base_tmp)
+            a = ['--dir', work] + a
+        out = os.path.join(logd, 'out.json')
+        try:
+            r = subprocess.run([exe] + a + ['--out', out], env=env, timeout=tmo, stdout=subprocess.PIPE, stderr=subprocess.PIPE, text=True)
+        finally:
+            if work:
+                shutil.rmtree(work, ignore_errors=True)
+        return name, r.returncode, logd, out
+    q = tier == 'quick'
+    jobs = [('mdl', 'checks/c10.cc', [] if q else ['--full'], False), ('reader', 'checks/c11.cc', ['--nmax', '3' if q else '5'], True), ('protocol', 'checks/c09.cc', ['--depth', '5' if q else '6'], False)]
+    with cf.ThreadPoolExecutor(4) as ex:
+        futs = [ex.submit(side, n, s_, a, 3000, nd) for n, s_, a, nd in jobs]
+        for f in futs:
+            name, rc, logd, out = f.result()
+            extra_runs[name] = rc
+            if rc != 0:
+                rep.violation('san:%s:crash' % name, 'the %s driver died on the sanitizer build (exit %d)' % (name, rc))
+            for k, v in parse_san_logs(logd, {}).items():
+                logs.setdefault(name + ':' + k, (name + ' driver', v[1]))
+            try:
+                x = json.load(open(out))
+                for v in x.get('violations', []):
+                    if 'unexpected exception' in v['text'] or 'crash' in v['key']:
+                        rep.violation('san:%s:%s' % (name, v['key'][:80]), v['text'])
+            except Exception:
+                pass
+    rep.coverage['other_drivers_on_sanitizer_build'] = extra_runs
     c01.aggregate(rep, total, False, ('san',), 'generator',
                   'the C01-C04 explorer (layers %s; every published background name, every accepted double-beta configuration, windows) run against '
                   'the -fsanitize=address,undefined -D_GLIBCXX_ASSERTIONS build of /repo with recover mode; oracle: zero AddressSanitizer/UBSan reports '
